@@ -171,6 +171,16 @@ def removeListener (r : RSys) (o c : Nat) : RSys :=
 def stop (v : Variant) (r : RSys) (c : Nat) : RSys :=
   if v.stopNoop then r else r.updConn c (fun y => { y with mailbox := none, listening := false })
 
+/-- `if not mailbox_id in self._mailboxes: self._mailboxes[mailbox_id] = Mailbox(self, …, self._app_id, mailbox_id)`
+    and `mailbox = self._mailboxes[mailbox_id]`, in the AppNamespace object `ns` -/
+def ensureMailbox (r : RSys) (ns : Ns) (mb : String) : RSys × Nat :=
+  match alookup ns.boxes mb with
+  | some o => (r, o)
+  | none =>
+    (({ r with mbs := r.mbs ++ [{ oid := r.nextOid, nsOid := ns.oid, app := ns.app, mailboxId := mb }],
+               nextOid := r.nextOid + 1 } : RSys).updNs ns.oid
+        (fun k => { k with boxes := k.boxes ++ [(mb, r.nextOid)] }), r.nextOid)
+
 /-- `AppNamespace.open_mailbox(mailbox_id, side, when)` on the AppNamespace object `n`;
     the third component is the returned Mailbox object -/
 def openMailbox (r : RSys) (n : Nat) (mb side : String) (t : Time) : RSys × OpenRes × Nat :=
@@ -181,22 +191,20 @@ def openMailbox (r : RSys) (n : Nat) (mb side : String) (t : Time) : RSys × Ope
     match r.core.addMailbox ns.app mb false t with
     | none => (r, .integrity, 0)
     | some c1 =>
-      let r1 : RSys := { r with core := c1 }
-      -- if not mailbox_id in self._mailboxes: self._mailboxes[mailbox_id] = Mailbox(self, …, self._app_id, mailbox_id)
-      -- mailbox = self._mailboxes[mailbox_id]
-      let p : RSys × Nat :=
-        match alookup ns.boxes mb with
-        | some o => (r1, o)
-        | none =>
-          (({ r1 with mbs := r1.mbs ++ [{ oid := r1.nextOid, nsOid := n, app := ns.app, mailboxId := mb }],
-                      nextOid := r1.nextOid + 1 } : RSys).updNs n
-              (fun k => { k with boxes := k.boxes ++ [(mb, r1.nextOid)] }), r1.nextOid)
+      let p := ({ r with core := c1 } : RSys).ensureMailbox ns mb
       match p.1.findMb p.2 with
       | none => (p.1.dangling, .integrity, p.2)
       | some obj =>
         -- mailbox.open(side, when); db.commit()
         let r3 := p.1.onCore (fun s => (s.mailboxOpen obj.mailboxId side t).commit)
         if (r3.core.db.mbSidesOf mb).length > 2 then (r3, .crowded, p.2) else (r3, .ok, p.2)
+
+/-- the end of `Mailbox.close`, on the Mailbox object `obj`:
+    `for (send_f, stop_f) in self._listeners.values(): stop_f()`; `self._listeners = {}`;
+    `self._app.free_mailbox(self._mailbox_id)` -/
+def shutObject (v : Variant) (r : RSys) (obj : MbObj) : RSys :=
+  ((obj.listeners.foldl (fun r c => r.stop v c) r).updMb obj.oid (fun k => { k with listeners := [] })).updNs
+    obj.nsOid (fun k => { k with boxes := k.boxes.filter (fun p => ¬ p.1 = obj.mailboxId) })
 
 /-- `Mailbox.close(side, mood, when)` on the Mailbox object `o`; `false` = an exception escaped -/
 def mailboxClose (v : Variant) (r : RSys) (o : Nat) (side : String) (mood : Option String) (t : Time) :
@@ -233,14 +241,7 @@ def mailboxClose (v : Variant) (r : RSys) (o : Nat) (side : String) (mood : Opti
                 let s4 := if s3.cfg.usage then
                     (s3.storeMailboxUsage ns.app row.forNp sideRows t false).ucommit else s3
                 s4.commit)
-              -- for (send_f, stop_f) in self._listeners.values(): stop_f()
-              let r5 := obj.listeners.foldl (fun r c => r.stop v c) r4
-              -- self._listeners = {}
-              let r6 := r5.updMb o (fun k => { k with listeners := [] })
-              -- self._app.free_mailbox(self._mailbox_id)
-              let r7 := r6.updNs obj.nsOid (fun k =>
-                { k with boxes := k.boxes.filter (fun p => ¬ p.1 = obj.mailboxId) })
-              (r7, true)
+              (r4.shutObject v obj, true)
 
 /-! ### AppNamespace -/
 
